@@ -188,6 +188,7 @@ type ATRun struct {
 	Toks     []string // script tokens for the model
 	Initial  string
 	crash    string
+	Logs     []*undo.BranchUndoLog // decoded undo log per registered branch (nil if none)
 }
 
 // undoLogOf returns the decoded undo log of a branch (nil if there is no normal row)
@@ -281,6 +282,7 @@ func (r *ATRun) PhaseOne(hook func(r *ATRun, localIdx int)) {
 					b := brs[len(brs)-1]
 					r.Branches = append(r.Branches, b)
 					l, has := r.undoLogOf(b)
+					r.Logs = append(r.Logs, l)
 					img := "-"
 					if has {
 						img = showUndoLog(sc, l)
